@@ -81,7 +81,11 @@ func workload(h *simdisk.Handle, size int64, opt *pdf.ReaderOptions, refs []pdf.
 		return steps
 	}
 	meta := r.GetMeta()
-	steps = append(steps, step{name: "meta", val: fmt.Sprintf("v=%s id=%x info=%s pages=%v errors=%d", meta.Version, meta.ID, showInfo(meta.Info), meta.Catalog != nil && meta.Catalog.Pages != 0, len(r.Errors))})
+	xmpTitle := ""
+	if meta.Catalog != nil {
+		xmpTitle = wprog.MetadataTitle(meta.Catalog.Metadata)
+	}
+	steps = append(steps, step{name: "meta", val: fmt.Sprintf("v=%s id=%x info=%s pages=%v errors=%d xmp=%q", meta.Version, meta.ID, showInfo(meta.Info), meta.Catalog != nil && meta.Catalog.Pages != 0, len(r.Errors), xmpTitle)})
 	x := pdf.NewExtractor(r)
 	for _, ref := range refs {
 		obj, err := r.Get(ref, true)
